@@ -466,8 +466,15 @@ static int first_return(const std::vector<int> &succ, int start, int count)
 }
 static void c_succ(std::vector<int> &nx, std::vector<int> &pv)
 {
-    std::map<struct dlist_head *, int> id;
-    for (size_t i = 0; i < cn.size(); i++) id[&cn[i]->lnk] = (int)i;
+    // address -> id: the nodes do not move within a case, so the table is built once per case (300 000-node rings)
+    static std::map<struct dlist_head *, int> id;
+    static CItem *id_first = nullptr;
+    if (id.size() != cn.size() || (!cn.empty() && id_first != cn[0]))
+    {
+        id.clear();
+        for (size_t i = 0; i < cn.size(); i++) id.emplace_hint(id.end(), &cn[i]->lnk, (int)i);
+        id_first = cn.empty() ? nullptr : cn[0];
+    }
     nx.resize(cn.size()); pv.resize(cn.size());
     for (size_t i = 0; i < cn.size(); i++) { nx[i] = id[cn[i]->lnk.next]; pv[i] = id[cn[i]->lnk.prev]; }
 }
